@@ -139,6 +139,7 @@ if has run; then
       LLVM_PROFILE_FILE=$COV/trash/gen-%p.profraw $H gen $g --seed $SEED --tier $TIER >> $COV/cases/$p.jsonl 2>> $COV/report/run-$p.err || echo "gen $g failed (engine not built?)" | tee -a $COV/report/run-$p.err
     done
     n=$(wc -l < $COV/cases/$p.jsonl)
+    [ "$n" -gt 0 ] || { printf "%s\t%s\t0\t0\t0\t0\t(no cases: engine not in the binary)\n" $p "$gens" | tee -a $COV/report/runs.tsv; rm -f $COV/prof/$p.profdata; continue; }
     t0=$(date +%s)
     LLVM_PROFILE_FILE="$COV/prof/$p/$p-%p-%m%c.profraw" VERIF_SCRATCH=$COV/scratch-$p $H exec --threads 16 < $COV/cases/$p.jsonl > $COV/cases/$p.out 2>> $COV/report/run-$p.err
     t1=$(date +%s)
